@@ -63,4 +63,9 @@ def deaths(world, statuses=(EXIT1, KILLED9), watcher=None):
             continue
         for st in statuses:
             out.append(Die(p.pid, st, tag='%s#%d' % (p.watcher, p.pid - 5_000_000)))
+    if getattr(world, 'deaths_include_descendants', False):
+        # children / grandchildren of workers may die too (one status is enough: nobody waits for them)
+        for p in world.kernel.spawn_log_all() if hasattr(world.kernel, 'spawn_log_all') else []:
+            if p.state == 'RUNNING' and not p.is_worker:
+                out.append(Die(p.pid, statuses[0], tag='child#%d' % (p.pid - 5_000_000)))
     return out
